@@ -18,8 +18,8 @@ Definition name_str (n : name) : string :=
   | NSetPreds => "__set_preds"
   | NReport => "__report"
   | NTmp => "__assert_struct_tmp"
-  | NActual => "actual"
-  | NRe => "re"
+  | NActual => "__assert_struct_actual"
+  | NRe => "__assert_struct_re"
   end.
 
 Definition ident (s : string) : list tok := [TIdent s SCall].
@@ -31,11 +31,20 @@ Definition pp_field_name (f : field_name) : list tok :=
   | FIndex n => [TLit (N_to_string n) SCall]         (* syn::Index: unsuffixed literal *)
   end.
 
+(* the binding a destructured field is given: a reserved name derived from the field,
+   carrying the field token's span *)
+Definition strip_raw (s : string) : string :=
+  match s with String "r" (String "#" r) => r | _ => s end.
+Definition field_binder_str (f : field_name) : string :=
+  "__assert_struct_f_" ++ strip_raw (field_name_str f).
+Definition pp_field_binder (f : field_name) : list tok :=
+  [TIdent (field_binder_str f) (match f with FIdent _ sp => sp | FIndex _ => SCall end)].
+
 Fixpoint pp_vexpr (e : vexpr) : list tok :=
   match e with
   | VRoot toks => toks
   | VBind n => ident (name_str n)
-  | VFieldBind f => pp_field_name f
+  | VFieldBind f => pp_field_binder f
   | VRef x => tpl SCall "& $0" [pp_vexpr x]
   | VField x f => tpl SCall "( $0 ) . $1" [pp_vexpr x; pp_field_name f]
   | VDeref sp x => tpl sp "* $0" [pp_vexpr x]
@@ -55,7 +64,7 @@ Definition pp_actual (a : actual) : list tok :=
   match a with
   | ADebug e => tpl SCall "format ! ( ""{:?}"" , $0 )" [pp_vexpr e]
   | ADebugRef e => tpl SCall "format ! ( ""{:?}"" , & $0 )" [pp_vexpr e]
-  | ADebugActual => tpl SCall "format ! ( ""{:?}"" , actual )" []
+  | ADebugActual => tpl SCall "format ! ( ""{:?}"" , __assert_struct_actual )" []
   | AMapLen e => tpl SCall "format ! ( $0 , ( $1 ) . len ( ) )" [str_lit "map with {} entries" SCall; pp_vexpr e]
   | AMissingKey => tpl SCall "$0 . to_string ( )" [str_lit "missing key" SCall]
   end.
@@ -97,7 +106,7 @@ Fixpoint pp_stmt (s : stmt) : list tok :=
   | SSimple sp e pt p =>
       tpl sp "if ! matches ! ( $0 , $1 ) { $2 }" [pp_vexpr e; pt; pp_push p]
   | SString sp e lit lsp p =>
-      tpl sp "{ let __assert_struct_tmp = & $0 ; let actual = ( * __assert_struct_tmp ) . as_ref ( ) ; if ! matches ! ( actual , $1 ) { $2 } }"
+      tpl sp "{ let __assert_struct_tmp = & $0 ; let __assert_struct_actual = ( * __assert_struct_tmp ) . as_ref ( ) ; if ! matches ! ( __assert_struct_actual , $1 ) { $2 } }"
           [pp_vexpr e; [TLit lit lsp]; pp_push p]
   | SCmp sp op e x p =>
       tpl sp ("# [ allow ( clippy :: nonminimal_bool ) ] if ! ( ( $0 ) . " ++ cmp_method op ++ " ( & ( $1 ) ) ) { $2 }")
@@ -110,7 +119,8 @@ Fixpoint pp_stmt (s : stmt) : list tok :=
            flat_map pp_stmt body; pp_push p]
   | SStruct sp e path fields rest body p =>
       tpl sp "# [ allow ( unreachable_patterns ) ] match & $0 { $1 { $2 $3 } => { $4 } , _ => { $5 } }"
-          [pp_vexpr e; p_toks path; sep_by (comma sp) (map pp_field_name fields);
+          [pp_vexpr e; p_toks path;
+           sep_by (comma sp) (map (fun f => (pp_field_name f ++ [TPunct ":" false sp] ++ pp_field_binder f)%list) fields);
            (if rest then match fields with [] => tpl SCall ".." [] | _ => tpl SCall ", .." [] end else []);
            flat_map pp_stmt body; pp_push p]
   | SSeq body => flat_map pp_stmt body
@@ -124,7 +134,7 @@ Fixpoint pp_stmt (s : stmt) : list tok :=
       tpl SCall "match ( $0 ) . as_slice ( ) { [ $1 ] => { $2 } _ => { $3 } }"
           [pp_vexpr e; sep_by (comma SCall) (map pp_part parts); flat_map pp_stmt body; pp_push p]
   | SRegex sp e pattern p =>
-      tpl sp "{ use :: assert_struct :: Like ; let re = :: assert_struct :: __macro_support :: Regex :: new ( $0 ) . expect ( concat ! ( $1 , $0 ) ) ; if ! $2 . like ( & re ) { $3 } }"
+      tpl sp "{ use :: assert_struct :: Like ; let __assert_struct_re = :: assert_struct :: __macro_support :: Regex :: new ( $0 ) . expect ( concat ! ( $1 , $0 ) ) ; if ! $2 . like ( & __assert_struct_re ) { $3 } }"
           [str_lit pattern SCall; str_lit "Invalid regex pattern: " sp; pp_vexpr e; pp_push p]
   | SLike sp e x p =>
       tpl sp "{ use :: assert_struct :: Like ; if ! $0 . like ( & $1 ) { $2 } }" [pp_vexpr e; u_toks x; pp_push p]
